@@ -120,9 +120,8 @@ impl ChainTracker {
         let p_start = if self.p_accept >= 0.0 {
             self.p_accept
         } else {
-            x_arr
-                .index_axis(Axis(0), 0)
-                .ne(&self.last_state.index_axis(Axis(0), 0)) as i32 as f32
+            // the first indicator: did the STATE (not just its first coordinate) change?
+            x_arr.ne(&self.last_state) as i32 as f32
         };
         self.p_accept = ndarray::Zip::from(x_arr.rows())
             .and(self.last_state.rows())
